@@ -1,7 +1,5 @@
 use std::{cell::RefCell, collections::HashMap};
 
-use chrono::Datelike;
-
 use crate::{
     geo::{astro::TopAstroDay, coordinates::Coordinates, julian_day::JulianDay},
     prayer_times::{
@@ -174,7 +172,8 @@ fn adj_near_good(
 
     let mut adj_hours = HashMap::new();
     let julian_day = top_astro_day.julian_day();
-    for i in 0..=julian_day.date.ordinal() {
+    let last_day = if julian_day.date.leap_year() { 366 } else { 365 };
+    for i in 0..=last_day {
         if let Some(hour) = test_fajr_isha(
             params,
             top_astro_day.coords(),
